@@ -14,7 +14,11 @@ def run(chk, failed):
                 "steps, which fall before the first response, between the results of an open incident, just before the closing OK and "
                 "outside incidents, and list all groups / a superset / a subset (dropping the group with the open incident) / nothing / a "
                 "closed reply channel / another cluster's groups / duplicates / an unknown cluster, or are whole cycles (cluster list + "
-                "group lists, clusters dropped and added); per step the sorted set of Notify calls (module, cluster, group, status, "
+                "group lists, clusters dropped and added); plus a small batch (36 + 4 witnesses, run in 12 parallel probe processes) of "
+                "histories with a refresh cycle through the real sendClusterRequest whose storage request - the cluster-list request, or "
+                "every group-list request - is NOT taken off App.StorageChannel within TimeoutSendStorageRequest's real second, mostly while "
+                "an incident is open and followed by a normal cycle (unchanged code: a timed-out request changes nothing but the cluster "
+                "entries); per step the sorted set of Notify calls (module, cluster, group, status, "
                 "canonical event id, start clock, stateGood) and at the end the cluster entries and every incident record (id, start, "
                 "LastNotify per module) are compared with the extracted model; the C13 oracle (computed from the history alone: an "
                 "incident's id/start survive every refresh that still lists the group; exactly one close per send-close module at the "
@@ -25,6 +29,7 @@ def run(chk, failed):
         "uuid.NewRandom is fresh (the model draws 1,2,3..; the probe numbers event ids by first appearance in the incident record)",
         "the steps of a history are handled one at a time: responses of one group do not overlap (responseLoop starts one goroutine per response; two in-flight responses of the same group race on the unlocked record) and a refresh does not overlap a response of its cluster (they exclude each other through clusterGroups.Lock); every interleaving of whole steps is a history",
         "no response arrives for a cluster that has no entry in nc.clusters (the real checkAndSendResponseToModules dereferences the missing entry and panics; sendEvaluatorRequests only asks for evaluations of recorded groups of known clusters and the storage module's cluster list is its static configuration); the model drops such a response and the probe does not run it",
+        "after a refresh whose storage request timed out, the goroutine waiting for the reply stays blocked for ever in the unchanged code (nc.running never returns to zero); the probe waits 1 s per timed-out request + 0.3 s for whatever the code does on a timeout, then continues the history with a second Coordinator sharing all state (modules, clusters map, locks) - effects later than that are not observed",
         "consumerGroup.LastEval (evaluation scheduling, random initial value) is not modelled: it plays no part in what a response does",
         "module names are distinct (keys of nc.modules); Go's map iteration order only permutes the calls of one response (theorem notify_all_perm), compared as a sorted set",
         "a group that leaves the notifier's list while its incident is open gets no close notification (theorem dropped_incident_never_notified) - outside the property: such a group has no further evaluations, hence no 'first evaluation in which it is OK again'",
